@@ -274,6 +274,29 @@ def run_one(h, prefix, opts):
                     ok = (cexc is None and len(sym_obs) == len(conc_obs)
                           and all(a[0] == b[0] and obs_equal(a[1], b[1], h.rtol or 1e-7) for a, b in zip(sym_obs, conc_obs)))
                 bad_props = [l for (l, r, _) in CS.results if not r and l in proved]
+                tries = 0
+                while ok and bad_props and tries < 3:
+                    # the code's outputs agree with the model but the harness's own oracle, evaluated in
+                    # doubles, disagrees with an obligation proved over the reals: a rounding coincidence is
+                    # specific to the chosen numbers, an oracle error is not -- ask for other dyadic models
+                    tries += 1
+                    differ = [ctx.inputs[n][2] != z3.RealVal(repr(float(v))) for n, v in nice.items()
+                              if n in ctx.inputs and ctx.inputs[n][0] == "real" and isinstance(v, float) and v == v and abs(v) != float("inf")]
+                    if not differ:
+                        break
+                    again, again_obs = _nice_model(ctx, z3.And(*differ) if len(differ) > 1 else differ[0])
+                    if again is None:
+                        break
+                    CS, cexc = run_concrete(h, again)
+                    conc_obs = [(l, plain(v)) for (l, v) in CS.observations]
+                    same = (cexc is None and len(again_obs) == len(conc_obs)
+                            and all(a[0] == b[0] and obs_equal(a[1], b[1], h.rtol or 1e-7) for a, b in zip(again_obs, conc_obs)))
+                    if ctx.uf_used:
+                        same = cexc is None and [a[0] for a in again_obs] == [b[0] for b in conc_obs]
+                    if not same:
+                        break
+                    nice, sym_obs = again, again_obs
+                    bad_props = [l for (l, r, _) in CS.results if not r and l in proved]
                 if ok and bad_props:
                     ok = False
                 final = nice
